@@ -161,6 +161,9 @@ def run_case(case):
         return {"outcome": "setup-crash:" + ei["cls"], "key": None,
                 "violations": [M.V(f"C06|setup_crash|{ei['cls']}|{ei['site']}", f"Solver construction died: {ei['cls']}: {ei['msg']}")], "stats": {}}
     viol = M.mon_c06(ctx.rec)
+    if case["cfg"].get("iteration_limit", 0) >= 1000 and case["cfg"].get("opts", "plain") == "plain" and "lamb_init" not in (case["cfg"].get("params") or {}):
+        # long-horizon family: the signature names the input, so that a recorded finding covers exactly that input
+        viol = [dict(v, sig=v["sig"].replace("C06|", f"C06|long|{case['spec']['tag']}|{case['cfg'].get('penalty')}|{case['cfg'].get('control')}|", 1)) for v in viol]
     if case.get("retry"):
         from pgfmc.drive import run as R
         x1 = [0.5 * v for v in case["spec"]["x0"]]
